@@ -102,6 +102,7 @@ def cf_specs(draw, tier):
         "pretend_real": draw(st.booleans()),
         "band_indices": draw(st.sampled_from(["none", "none", "subset", "reordered", "nested"])),
         "lang": draw(st.sampled_from(["C", "Py"])),
+        "tlayout": draw(st.sampled_from(["array", "array", "list", "strided", "column", "float32ish"])),
         "logx": draw(st.lists(st.floats(-8, 4, allow_nan=False), min_size=1, max_size=5)),
         "T_plain": draw(st.lists(st.floats(1.0, 5000.0, allow_nan=False), min_size=0, max_size=3)),
     }
@@ -161,9 +162,27 @@ def run_closed_form(spec):
     Ts = _temps(spec, f)
     mesh = FakeMesh(f, w)
     tp = ThermalProperties(mesh, cutoff_frequency=cut, pretend_real=spec["pretend_real"], band_indices=bi, classical=spec["classical"])
-    tp.temperatures = Ts
+    lay = spec.get("tlayout", "array")
+    if lay == "list":
+        tp.temperatures = Ts.tolist()
+    elif lay == "strided":  # every second element of a longer array
+        big = np.full(2 * len(Ts), 7777.0)
+        big[::2] = Ts
+        tp.temperatures = big[::2]
+    elif lay == "column":  # one column of a table
+        tab = np.full((len(Ts), 3), 4321.0)
+        tab[:, 1] = Ts
+        tp.temperatures = tab[:, 1]
+    elif lay == "float32ish":  # Fortran-ordered 1-D slice of a 2-D array
+        tab = np.asfortranarray(np.full((3, len(Ts)), 1234.0))
+        tab[2, :] = Ts
+        tp.temperatures = tab[2, :]
+    else:
+        tp.temperatures = Ts
     tp.run(lang=spec["lang"])
-    _, F, S, C = tp.thermal_properties
+    Tret, F, S, C = tp.thermal_properties
+    if len(Tret) != len(Ts) or not np.array_equal(np.asarray(Tret, dtype=float), Ts):
+        return Out(ok=False, msg="reported temperatures %s differ from the requested ones %s (layout %s)" % (np.asarray(Tret).tolist(), Ts.tolist(), lay))
     # the mesh handed in is shared with other consumers (DOS, later thermal-property runs): it must not be modified
     if not (np.array_equal(mesh.frequencies, f) and np.array_equal(mesh.weights, w)):
         return Out(ok=False, msg="ThermalProperties modified the frequencies/weights of the mesh object it was given "
@@ -198,7 +217,7 @@ def run_closed_form(spec):
         if abs(tp.zero_point_energy - ref0[0]) > 1e-10 * mag0[0] + 1e-300:
             return Out(ok=False, msg="zero_point_energy %r != sum over modes above the cutoff %r (cutoff %r)" % (tp.zero_point_energy, ref0[0], cut))
     distinct = len(set(np.round(fsel[fsel * THzToEv > cut_eff * THzToEv], 9).tolist()))
-    classes = ["lang:" + spec["lang"], "classical" if spec["classical"] else "quantum", "cutoff:" + spec["cutoff"],
+    classes = ["tlayout:" + spec.get("tlayout", "array"), "lang:" + spec["lang"], "classical" if spec["classical"] else "quantum", "cutoff:" + spec["cutoff"],
                "bi:" + spec["band_indices"], "pretend" if spec["pretend_real"] else "asis",
                "x>709" if xmax > 709 else ("x>50" if xmax > 50 else "x<=50"), "tiny_mode" if spec.get("tiny") else "no_tiny_mode"]
     return Out(ok=True, nontrivial=distinct >= 2 and len(Ts) > 1, classes=classes, info={"tol_ratio": worst, "xmax": xmax})
